@@ -21,7 +21,8 @@ import random
 from .common import Check, run_driver, run_impl
 
 COLLECTED, ONEOF, NEGATE = "CollectedParseError", "OneOfViolatedError", "NegateViolatedError"
-FIXED_ERR_IDS = {COLLECTED: 0, ONEOF: 1, NEGATE: 2}
+FIXED_ERR_IDS = {COLLECTED: 0, ONEOF: 1, NEGATE: 2, "ParseError": 3}
+NON_PARSE_BASE = 1000      # model convention (Err.nonParseBase): ids below = ParseError and subclasses, from here on = others
 MAX_VALUES = 18
 
 # ------------------------------------------------------------------------------------------------
@@ -194,8 +195,16 @@ def enc(v):
 
 
 def errtree(e):
+    from utype.utils.exceptions import ParseError
     sub = getattr(e, "errors", None) if type(e).__name__ == COLLECTED else None
-    return {"e": type(e).__name__, "sub": [errtree(x) for x in (sub or [])]}
+    t = {"e": type(e).__name__, "sub": [errtree(x) for x in (sub or [])]}
+    if not isinstance(e, ParseError):
+        t["np"] = True          # not a ParseError: a conjunction wraps it (rule.py:372-373)
+    return t
+
+
+def strip_np(t):
+    return {"e": t["e"], "sub": [strip_np(x) for x in t["sub"]]}
 
 
 def _mk_leaf(d):
@@ -321,7 +330,7 @@ def _call(T, kw, v):
         else:
             r = ctx.transformer(_copy(v), T)
     except RecursionError:
-        return ("err", {"e": "RecursionError", "sub": []})
+        return ("err", {"e": "RecursionError", "sub": [], "np": True})
     except Exception as e:
         return ("err", errtree(e))
     return ("ok", r)
@@ -970,7 +979,8 @@ class C09(Check):
         names = dict(FIXED_ERR_IDS)
 
         def walk(t):
-            names.setdefault(t["e"], len(names) + 7)
+            if t["e"] not in names:
+                names[t["e"]] = (NON_PARSE_BASE if t.get("np") else 7) + len(names)
             for s in t["sub"]:
                 walk(s)
 
@@ -1025,7 +1035,7 @@ class C09(Check):
 
         if "err" not in m:
             return f"outcome differs: impl={r} model={m}"
-        got, want = r["err"], back(m["err"])
+        got, want = strip_np(r["err"]), back(m["err"])
         if case["opts"].get("collect_errors"):
             # with error collection the CONTENT of the collected list is not the property's business (and under `&`
             # a failing Rule argument records its errors in the shared context before raising, so the list holds
